@@ -302,3 +302,79 @@ B('c12-benign-raise-e', 'C12', PK,
 B('c12-benign-fstring-message', 'C12', PK,
   '''            offset_and_pkt_class = "    %08x %s" % (offset, packet_class_name)''',
   '''            offset_and_pkt_class = f"    {offset:08x} {packet_class_name}"''')
+
+# =========================================================================== C20
+S('c20-default-removed-eq', 'C20', PK,
+  '''            if getattr(self, name, None) != getattr(other, name, None):''',
+  '''            if getattr(self, name) != getattr(other, name, None):''', 'R11-total-reads')
+S('c20-default-removed-repr', 'C20', PK,
+  '''            msg.append(f'  {name}: {getattr(self, name, None)}')''',
+  '''            msg.append(f'  {name}: {getattr(self, name)}')''', 'R11-total-reads')
+S('c20-isinstance-dropped', 'C20', PK,
+  '''        if not isinstance(other, self.__class__):
+            return False
+
+        for name, f, pack, _ in self.get_fields():
+            # pseudo''',
+  '''        for name, f, pack, _ in self.get_fields():
+            # pseudo''', 'R11-eq-shape')
+S('c20-isinstance-reversed', 'C20', PK,
+  '''        if not isinstance(other, self.__class__):
+            return False
+''',
+  '''        if not isinstance(self, other.__class__):
+            return False
+''', 'R11-eq-shape')
+S('c20-skip-private-names', 'C20', PK,
+  '''            if getattr(self, name, None) != getattr(other, name, None):
+                return False''',
+  '''            if name.startswith('_'):
+                continue
+            if getattr(self, name, None) != getattr(other, name, None):
+                return False''', 'R11-eq-shape')
+S('c20-first-fields-only', 'C20', PK,
+  '''        for name, f, pack, _ in self.get_fields():
+            # pseudo''',
+  '''        for name, f, pack, _ in self.get_fields()[:8]:
+            # pseudo''', 'R11-eq-shape')
+S('c20-same-side', 'C20', PK,
+  '''            if getattr(self, name, None) != getattr(other, name, None):''',
+  '''            if getattr(self, name, None) != getattr(self, name, None):''', 'R11-eq-shape')
+S('c20-early-true', 'C20', PK,
+  '''            if getattr(self, name, None) != getattr(other, name, None):
+                return False
+
+        return True''',
+  '''            if getattr(self, name, None) != getattr(other, name, None):
+                return False
+            if f.is_fixed:
+                return True
+
+        return True''', 'R11-eq-shape')
+S('c20-ne-override', 'C20', PK,
+  '''    def iterative_unpack(self, raw, offset=0, stack=None):''',
+  '''    def __ne__(self, other):
+        return self is not other
+
+    def iterative_unpack(self, raw, offset=0, stack=None):''', 'R11-no-contradicting-override')
+S('c20-different-defaults', 'C20', PK,
+  '''            if getattr(self, name, None) != getattr(other, name, None):''',
+  '''            if getattr(self, name, None) != getattr(other, name, b''):''', 'R11-eq-shape')
+B('c20-benign-type-self', 'C20', PK,
+  '''        if not isinstance(other, self.__class__):
+            return False
+''',
+  '''        if not isinstance(other, type(self)):
+            return False
+''')
+B('c20-benign-rename-and-not-eq', 'C20', PK,
+  '''        for name, f, pack, _ in self.get_fields():
+            # pseudo-fields (moves, Em, breakpoints, embedded references)
+            # never receive a value: read them with a default
+            if getattr(self, name, None) != getattr(other, name, None):
+                return False''',
+  '''        for attr, _f, _p, _u in self.get_fields():
+            mine = getattr(self, attr, None)
+            theirs = getattr(other, attr, None)
+            if not (theirs == mine):
+                return False''')
